@@ -565,10 +565,13 @@ type C19Ctx struct {
 	// Others (http read): this many other readers are already parked in Read on the same logical connection (two
 	// ClientConns dialled to one peer share it)
 	Others int `json:"others,omitempty"`
+	// Again (http write): after the blocked Write has failed, the application tries this many more Writes on the same
+	// connection object, each with a context that is already done: they must fail too, and nothing may blow up
+	Again int `json:"again,omitempty"`
 }
 
 func genC19Ctx(t *rapid.T) C19Ctx {
-	return C19Ctx{Transport: rapid.SampledFrom([]string{"channel", "http", "websocket"}).Draw(t, "transport"), Op: rapid.SampledFrom([]string{"read", "write"}).Draw(t, "op"), Deadline: rapid.Bool().Draw(t, "deadline"), Others: rapid.SampledFrom([]int{0, 0, 1, 2}).Draw(t, "others")}
+	return C19Ctx{Transport: rapid.SampledFrom([]string{"channel", "http", "websocket"}).Draw(t, "transport"), Op: rapid.SampledFrom([]string{"read", "write"}).Draw(t, "op"), Deadline: rapid.Bool().Draw(t, "deadline"), Others: rapid.SampledFrom([]int{0, 0, 1, 2}).Draw(t, "others"), Again: rapid.IntRange(0, 2).Draw(t, "again")}
 }
 
 func execC19Ctx(t *testing.T, c C19Ctx) (v Verdict) {
@@ -675,6 +678,20 @@ func execC19Ctx(t *testing.T, c C19Ctx) (v Verdict) {
 			case <-done:
 				returned = true
 			case <-time.After(3 * time.Second):
+			}
+			for i := 0; returned && i < c.Again; i++ {
+				func() {
+					defer func() {
+						if r := recover(); r != nil {
+							v.failf("http: Write #%d on a connection whose earlier Write had failed panicked: %v", i+2, r)
+						}
+					}()
+					gone, gcancel := context.WithCancel(context.Background())
+					gcancel()
+					if err := rw.Write(gone, env); err == nil {
+						v.failf("http: Write #%d with a context that is already done reported success", i+2)
+					}
+				}()
 			}
 		}
 	case "websocket":
